@@ -38,3 +38,12 @@ for _p, _b, _t in [("C03", 60, "abort oracle: observable state (full scans, inde
                      technique="deterministic simulation (sequential driver, restart fault injection) with reference model: " + _t,
                      assumptions=["single driver: statements of different transactions interleave at statement granularity only (sub-statement interleavings are the consim checks)",
                                   "multi-row VALUES lists and parenthesised predicates are not accepted by the SQL front end and are not generated"])
+for _p, _t in [("C06", "statement answers vs reference model, each history executed in two environments (map order / pool size / statistics timing) so that the plan chosen differs"),
+               ("C11", "join answers vs naive nested-loop evaluation in the reference model, two environments per history, statistics steered by refresh operations")]:
+    PROPS[_p] = dict(driver="sqlsim", budget=dict(quick=60, thorough=1200), chunk=40,
+                     rule=SQL_RULE + "; for C06/C11 every history is executed in two environments and the plan shapes per statement are compared",
+                     technique="deterministic simulation (environment-varied: statistics-thread timing, map order, pool size) with reference model: " + _t,
+                     assumptions=["the input dimension (schemas, rows, predicates) is sampled by a generator; the simulator owns the environment dimension (statistics timing, plan tie-breaks, pool size)",
+                                  "parenthesised predicates and multi-row VALUES lists are outside the supported SQL subset and are not generated",
+                                  "NULL compares as unknown (row not selected) in the reference model"])
+
